@@ -284,6 +284,10 @@ func (e *Enc) enterLoop(fr *Frame, b *ssa.BasicBlock, hdr *loopHdr, in *State, b
 		if phi.Comment != "" {
 			phiVals[phi.Comment] = &SVal{T: nv, Typ: phi.Type()}
 		}
+		if phi.Comment == "rangeindex" && s.Kind == smt.KBV {
+			// built-in invariant of go/ssa's lowering of "range" over a slice: index >= -1 (checked on the back edge)
+			e.assume(in, c.And(c.Cmp("bvsge", nv, c.LitI(-1, s.W)), c.Cmp("bvslt", nv, c.LitI(1<<40, s.W))))
+		}
 	}
 	// 3. assume invariants
 	env = e.loopEnv(fr, in, phiVals)
@@ -301,9 +305,6 @@ func (e *Enc) checkBackEdge(fr *Frame, src, header *ssa.BasicBlock, cur *State, 
 	var invs []*Clause
 	if fr.spec != nil {
 		invs = fr.spec.Loops[ord]
-	}
-	if len(invs) == 0 {
-		return
 	}
 	pi := -1
 	for i, p := range header.Preds {
@@ -323,6 +324,13 @@ func (e *Enc) checkBackEdge(fr *Frame, src, header *ssa.BasicBlock, cur *State, 
 		if v.T != nil && phi.Comment != "" {
 			phiVals[phi.Comment] = &SVal{T: v.T, Typ: phi.Type()}
 		}
+		if phi.Comment == "rangeindex" && v.T != nil && v.T.Sort.Kind == smt.KBV {
+			e.oblige(fr, st, "invariant-preserved", fmt.Sprintf("loop%d.auto-rangeindex", ord), "range index stays >= -1", src.Instrs[len(src.Instrs)-1].Pos(),
+				e.C.And(e.C.Cmp("bvsge", v.T, e.C.LitI(-1, v.T.Sort.W)), e.C.Cmp("bvslt", v.T, e.C.LitI(1<<40, v.T.Sort.W))), e.Props)
+		}
+	}
+	if len(invs) == 0 {
+		return
 	}
 	env := e.loopEnv(fr, st, phiVals)
 	for _, inv := range invs {
@@ -348,6 +356,7 @@ type FuncResult struct {
 	UsedExtern []string
 	Notes      []string
 	Heaps      []string
+	TypeInvs   []string
 }
 
 // VerifyFunc generates the obligations of fn against its contract.
@@ -467,7 +476,7 @@ func VerifyFunc(p *Program, fn *ssa.Function) (res *FuncResult) {
 				}
 				var cond *smt.Term
 				hs := e.hsorts[h]
-				if hs.Kind == smt.KArray && hs.Idx.Kind == smt.KBV && hs.Idx.W == 64 && hs.Elem.Kind == smt.KArray {
+				if h == "ghost:objtype" || h == "ghost:bigabs" || h == "ghost:bigneg" || h == "ghost:bigwide" || (hs.Kind == smt.KArray && hs.Idx.Kind == smt.KBV && hs.Idx.W == 64 && hs.Elem.Kind == smt.KArray) {
 					o := c.BoundVar("o", smt.BV(64))
 					cond = c.Forall([]*smt.Term{o}, c.Implies(c.Cmp("bvule", o, entry.Alloc), c.Eq(c.Select(cur, o), c.Select(init, o))))
 				} else {
@@ -477,8 +486,20 @@ func VerifyFunc(p *Program, fn *ssa.Function) (res *FuncResult) {
 			}
 		}
 	}
+	// type invariants hold for every object allocated by this activation when it returns
+	for i, as := range e.allocSites {
+		for _, ti := range p.allocInvs(as.typ) {
+			h := e.heap(out, ti.Heap, heapSort(sortOf(ti.Typ)))
+			v := c.Select(c.Select(h, as.obj), e.bv64(0))
+			g := out.clone()
+			g.Reach = c.And(out.Reach, as.guard)
+			e.oblige(nil, g, "typeinv", fmt.Sprintf("init:%s@%d", ti.Path, i+1),
+				"object allocated at "+e.posOf(as.pos)+" satisfies the type invariant of "+ti.Path+" ("+ti.Pred+") when the function returns", as.pos, e.invTerm(g, ti, v), e.Props)
+		}
+	}
 	e.finalizeImplements()
 	res.Obls = e.Obls
+	res.TypeInvs = sortedKeys(e.UsedTypeInv)
 	res.Inlined = sortedKeys(e.Inlined)
 	res.UsedSpecs = sortedKeys(e.UsedSpecs)
 	res.UsedExtern = sortedKeys(e.UsedExtern)
